@@ -213,169 +213,211 @@ func c18MergeContexts(c *Ctx, aspects map[string]bool) {
 
 func c18HTTPAttempt(c *Ctx, aspects map[string]bool) {
 	c.Rule("http-attempt")
-	fn := c.P.Func("failsafehttp.doRequest")
-	if fn == nil {
-		c.Unresolved("failsafehttp.doRequest", "not found")
-		return
+	// The two entry points of the adapter (the round tripper and Request.Do) are evaluated with the adapter's own
+	// helpers in place — whether the shared logic lives in a helper (doRequest upstream), is written out in each
+	// entry point, or is split further is not the property's business. Obligation names keep the upstream construct
+	// names: "failsafehttp.doRequest" is the part before the attempts, "failsafehttp.doRequest$1" the per-attempt
+	// function.
+	const outerName, name = "failsafehttp.doRequest", "failsafehttp.doRequest$1"
+	entries := []struct{ fn, via, reqField, innerField string }{
+		{"failsafehttp.(*roundTripper).RoundTrip", "RoundTrip", "", "next"},
+		{"failsafehttp.(*Request).Do", "Do", "request", "client"},
 	}
-	ev := NewEvaluator(c.P, EvalConfig{})
-	ts := ev.TS
-	request, reqFn := ev.Param(fn, "request"), ev.Param(fn, "reqFn")
-	ps := ev.Run(fn)
-	if ev.Err != nil || len(ps) == 0 {
-		c.Undecided(c.fn(fn), c.P.FuncPos(fn), fmt.Sprintf("evaluation failed: %v", ev.Err), "")
-		return
-	}
-	okOuter := true
-	var closure *T
-	var st *State
-	var bodyFuncT *T
-	for _, p := range ps {
-		br := eventsWhere(p, func(e *Event) bool { return isCall(e, "bodyReader") })
-		if len(br) != 1 || br[0].Args[0] != ev.LoadField(ev.NewState(), request, "Body") {
-			okOuter = false
-			c.Fail(c.fn(fn), c.P.FuncPos(fn), "doRequest must capture the request body exactly once, before the first attempt (bodyReader(request.Body))", pathTrace(ev, p))
-			continue
-		}
-		failed := p.State.Facts.Truth(ts, ts.Cmp("!=", br[0].Res[1], ts.Nil(nil)))
-		get := eventsWhere(p, func(e *Event) bool { return isCall(e, "GetWithExecution") })
-		if failed == triT {
-			if len(get) != 0 || p.Rets[1] != br[0].Res[1] {
-				okOuter = false
-				c.Fail(c.fn(fn), c.P.FuncPos(fn), "an error while capturing the body must be returned, not dropped", pathTrace(ev, p))
-			}
-			continue
-		}
-		if len(get) != 1 || get[0].Args[0].Fn == nil || p.Rets[0] != get[0].Res[0] || p.Rets[1] != get[0].Res[1] {
-			okOuter = false
-			c.Fail(c.fn(fn), c.P.FuncPos(fn), "doRequest must run the attempts through executor.GetWithExecution and return its response and error", pathTrace(ev, p))
-			continue
-		}
-		closure, st, bodyFuncT = get[0].Args[0], p.State, br[0].Res[0]
-	}
-	if aspects["attempt"] && okOuter {
-		c.Ok(c.fn(fn), c.P.FuncPos(fn), "body captured once; attempts run through GetWithExecution; its values returned")
-	}
-	if closure == nil {
-		c.Undecided(c.fn(fn)+"$1", c.P.FuncPos(fn), "per-attempt closure not found", "")
-		return
-	}
-	// the per-attempt function, whether it is written as a closure or as a bound method
-	name, pos := c.fn(fn)+"$1", c.P.FuncPos(c.P.TargetOf(closure.Fn))
-	if len(closure.Fn.Params) != 1 {
-		c.Undecided(name, pos, "the per-attempt function does not take exactly the execution", "")
-		return
-	}
-	exec := ts.intern(&T{Op: "param", Aux: "exec", Typ: closure.Fn.Params[0].Type()})
-	qs := ev.CallTerm(st, closure, []*T{exec})
 	okAttempt, okCancelRuns := true, true
 	premature := false
 	sawBody, sawNoBody := false, false
-	for _, q := range qs {
-		bad := func(msg string) {
-			okAttempt = false
-			if aspects["attempt"] {
-				c.Fail(name, pos, msg, pathTrace(ev, q))
-			}
-		}
-		if q.Exit != ExitReturn || len(q.Rets) != 2 {
-			bad("non-returning path")
+	pos := ""
+	evaluated := 0
+	nPaths := 0
+	for _, en := range entries {
+		fn := c.P.Func(en.fn)
+		if fn == nil {
+			c.Unresolved(en.fn, "not found")
 			continue
 		}
-		evs := q.Events()[q.Base:]
-		var mc, wc, send *Event
-		var bodyCalls []*Event
-		for _, e := range evs {
-			switch {
-			case isCall(e, "MergeContexts") && mc == nil:
-				mc = e
-			case isCall(e, "WithContext") && wc == nil:
-				wc = e
-			case isDynCall(e, reqFn):
-				send = e
-			case e.Kind == EvCall && e.FnTerm != nil && e.FnTerm == bodyFuncT:
-				bodyCalls = append(bodyCalls, e)
-			case e.Kind == EvStore && rootOf(e.Addr) == request:
-				bad("the original request is modified: attempts must work on their own clone")
-			}
+		ev := NewEvaluator(c.P, EvalConfig{})
+		ts := ev.TS
+		recv := ev.Param(fn, fn.Params[0].Name())
+		s0 := ev.NewState()
+		var request *T
+		if en.reqField == "" {
+			request = ev.Param(fn, fn.Params[1].Name())
+		} else {
+			request = ev.LoadField(s0, recv, en.reqField)
 		}
-		if mc == nil || len(mc.Args) != 2 || !isCtxCall(mc.Args[0], "Context", request) || !isCtxCall(mc.Args[1], "Context", exec) {
-			bad("each attempt must run under MergeContexts(request.Context(), exec.Context()): the caller's context first (its values survive), the execution's second (its cancellation reaches the attempt)")
+		executor, inner := ev.LoadField(s0, recv, "executor"), ev.LoadField(s0, recv, en.innerField)
+		if request == nil || executor == nil || inner == nil {
+			c.Unresolved(en.fn, "request / executor / inner transport fields not found")
 			continue
 		}
-		merged, cancel := mc.Res[0], mc.Res[1]
-		if wc == nil || wc.Recv != request || wc.Args[0] != merged {
-			bad("the attempt's request must be request.WithContext(merged context)")
+		// the transport call: the inner round tripper's RoundTrip / the client's Do, on the configured object
+		isSend := func(e *Event) bool {
+			return e.Kind == EvCall && e.FnTerm == nil && e.Method == en.via && e.Recv == inner
+		}
+		ps := ev.Run(fn)
+		if ev.Err != nil || len(ps) == 0 {
+			c.Undecided(en.fn, c.P.FuncPos(fn), fmt.Sprintf("evaluation failed: %v", ev.Err), "")
 			continue
 		}
-		req := wc.Res[0]
-		hasBody := q.State.Facts.Truth(ts, ts.Cmp("!=", bodyFuncT, ts.Nil(nil)))
-		cancels := eventsWhere(q, func(e *Event) bool { return isDynCall(e, cancel) && e.Idx >= q.Base })
-		deferred := eventsWhere(q, func(e *Event) bool { return e.Kind == EvDefer && e.FnTerm == cancel })
-		if len(cancels) == 0 && len(deferred) == 0 {
-			okCancelRuns = false
-			if aspects["cancel-runs"] {
-				c.Fail(name+"#cancel-runs", pos, "the per-attempt merged context is never cancelled on this path: its watcher goroutine and timers are released only when a source context ends", pathTrace(ev, q))
-			}
-		}
-		switch hasBody {
-		case triT:
-			sawBody = true
-			if len(bodyCalls) != 1 {
-				bad("with a body, every attempt must obtain a fresh reader from the captured body exactly once")
+		okOuter := true
+		var closure *T
+		var st *State
+		var bodyFuncT *T
+		for _, p := range ps {
+			br := eventsWhere(p, func(e *Event) bool { return isCall(e, "bodyReader") })
+			if len(br) != 1 || br[0].Args[0] != ev.LoadField(ev.NewState(), request, "Body") {
+				okOuter = false
+				c.Fail(en.fn, c.P.FuncPos(fn), "the request body must be captured exactly once, before the first attempt (bodyReader(request.Body))", pathTrace(ev, p))
 				continue
 			}
-			berr := q.State.Facts.Truth(ts, ts.Cmp("!=", bodyCalls[0].Res[1], ts.Nil(nil)))
-			if berr == triT {
-				if send != nil || q.Rets[1] != bodyCalls[0].Res[1] {
-					bad("an error obtaining the body must fail the attempt with that error")
+			failed := p.State.Facts.Truth(ts, ts.Cmp("!=", br[0].Res[1], ts.Nil(nil)))
+			get := eventsWhere(p, func(e *Event) bool { return isCall(e, "GetWithExecution") })
+			if failed == triT {
+				if len(get) != 0 || len(p.Rets) != 2 || p.Rets[1] != br[0].Res[1] {
+					okOuter = false
+					c.Fail(en.fn, c.P.FuncPos(fn), "an error while capturing the body must be returned, not dropped", pathTrace(ev, p))
 				}
 				continue
 			}
-			b := ev.LoadField(q.State, req, "Body")
-			fresh := bodyCalls[0].Res[0]
-			okB := b == fresh
-			if !okB {
-				for _, e := range evs {
-					if isCall(e, "NopCloser") && len(e.Res) == 1 && e.Res[0] == b && e.Args[0] == fresh {
-						okB = true
+			if len(get) != 1 || get[0].Recv != executor || len(get[0].Args) != 1 || get[0].Args[0].Fn == nil || len(p.Rets) != 2 || p.Rets[0] != get[0].Res[0] || p.Rets[1] != get[0].Res[1] {
+				okOuter = false
+				c.Fail(en.fn, c.P.FuncPos(fn), "the attempts must run through the configured executor's GetWithExecution, whose response and error are returned", pathTrace(ev, p))
+				continue
+			}
+			for _, e := range impure(p) {
+				if !(isCall(e, "bodyReader") || isCall(e, "GetWithExecution")) && e.Kind == EvCall {
+					okOuter = false
+					c.Fail(en.fn, c.P.FuncPos(fn), "the entry point does something besides capturing the body and running the attempts: "+e.Callee, pathTrace(ev, p))
+				}
+			}
+			closure, st, bodyFuncT = get[0].Args[0], p.State, br[0].Res[0]
+		}
+		if aspects["attempt"] && okOuter {
+			c.Ok(en.fn, c.P.FuncPos(fn), "body captured once; attempts run through the configured executor's GetWithExecution; its values returned")
+		}
+		if closure == nil {
+			c.Undecided(name, c.P.FuncPos(fn), "per-attempt function not found in "+en.fn, "")
+			continue
+		}
+		// the per-attempt function, whether it is written as a closure or as a bound method
+		pos = c.P.FuncPos(c.P.TargetOf(closure.Fn))
+		if len(closure.Fn.Params) != 1 {
+			c.Undecided(name, pos, "the per-attempt function does not take exactly the execution", "")
+			continue
+		}
+		evaluated++
+		exec := ts.intern(&T{Op: "param", Aux: "exec", Typ: closure.Fn.Params[0].Type()})
+		qs := ev.CallTerm(st, closure, []*T{exec})
+		nPaths += len(qs)
+		for _, q := range qs {
+			bad := func(msg string) {
+				okAttempt = false
+				if aspects["attempt"] {
+					c.Fail(name, pos, msg, pathTrace(ev, q))
+				}
+			}
+			if q.Exit != ExitReturn || len(q.Rets) != 2 {
+				bad("non-returning path")
+				continue
+			}
+			evs := q.Events()[q.Base:]
+			var mc, wc, send *Event
+			var bodyCalls []*Event
+			for _, e := range evs {
+				switch {
+				case isCall(e, "MergeContexts") && mc == nil:
+					mc = e
+				case isCall(e, "WithContext") && wc == nil:
+					wc = e
+				case isSend(e):
+					send = e
+				case e.Kind == EvCall && e.FnTerm != nil && e.FnTerm == bodyFuncT:
+					bodyCalls = append(bodyCalls, e)
+				case e.Kind == EvStore && rootOf(e.Addr) == request:
+					bad("the original request is modified: attempts must work on their own clone")
+				}
+			}
+			if mc == nil || len(mc.Args) != 2 || !isCtxCall(mc.Args[0], "Context", request) || !isCtxCall(mc.Args[1], "Context", exec) {
+				bad("each attempt must run under MergeContexts(request.Context(), exec.Context()): the caller's context first (its values survive), the execution's second (its cancellation reaches the attempt)")
+				continue
+			}
+			merged, cancel := mc.Res[0], mc.Res[1]
+			if wc == nil || wc.Recv != request || wc.Args[0] != merged {
+				bad("the attempt's request must be request.WithContext(merged context)")
+				continue
+			}
+			req := wc.Res[0]
+			hasBody := q.State.Facts.Truth(ts, ts.Cmp("!=", bodyFuncT, ts.Nil(nil)))
+			cancels := eventsWhere(q, func(e *Event) bool { return isDynCall(e, cancel) && e.Idx >= q.Base })
+			deferred := eventsWhere(q, func(e *Event) bool { return e.Kind == EvDefer && e.FnTerm == cancel })
+			if len(cancels) == 0 && len(deferred) == 0 {
+				okCancelRuns = false
+				if aspects["cancel-runs"] {
+					c.Fail(name+"#cancel-runs", pos, "the per-attempt merged context is never cancelled on this path: its watcher goroutine and timers are released only when a source context ends", pathTrace(ev, q))
+				}
+			}
+			switch hasBody {
+			case triT:
+				sawBody = true
+				if len(bodyCalls) != 1 {
+					bad("with a body, every attempt must obtain a fresh reader from the captured body exactly once")
+					continue
+				}
+				berr := q.State.Facts.Truth(ts, ts.Cmp("!=", bodyCalls[0].Res[1], ts.Nil(nil)))
+				if berr == triT {
+					if send != nil || q.Rets[1] != bodyCalls[0].Res[1] {
+						bad("an error obtaining the body must fail the attempt with that error")
+					}
+					continue
+				}
+				b := ev.LoadField(q.State, req, "Body")
+				fresh := bodyCalls[0].Res[0]
+				okB := b == fresh
+				if !okB {
+					for _, e := range evs {
+						if isCall(e, "NopCloser") && len(e.Res) == 1 && e.Res[0] == b && e.Args[0] == fresh {
+							okB = true
+						}
 					}
 				}
-			}
-			if !okB {
-				bad("the attempt's request body must be the fresh reader (wrapped in io.NopCloser when it is not a ReadCloser)")
+				if !okB {
+					bad("the attempt's request body must be the fresh reader (wrapped in io.NopCloser when it is not a ReadCloser)")
+					continue
+				}
+			case triF:
+				sawNoBody = true
+				if len(bodyCalls) != 0 {
+					bad("no body function to call")
+				}
+			default:
+				bad("path does not depend on whether the request has a body")
 				continue
 			}
-		case triF:
-			sawNoBody = true
-			if len(bodyCalls) != 0 {
-				bad("no body function to call")
+			if send == nil || len(send.Args) != 1 || send.Args[0] != req || len(eventsWhere(q, func(e *Event) bool { return isSend(e) && e.Idx >= q.Base })) != 1 {
+				bad("the transport must be invoked exactly once per attempt with the attempt's own request")
+				continue
 			}
-		default:
-			bad("path does not depend on whether the request has a body")
-			continue
-		}
-		if send == nil || len(send.Args) != 1 || send.Args[0] != req || len(eventsWhere(q, func(e *Event) bool { return isDynCall(e, reqFn) })) != 1 {
-			bad("the transport must be invoked exactly once per attempt with the attempt's own request")
-			continue
-		}
-		if q.Rets[0] != send.Res[0] || q.Rets[1] != send.Res[1] {
-			bad("the attempt must return the transport's response and error unchanged")
-			continue
-		}
-		// K2: the merged context is cancelled although a response is returned whose body still reads under it
-		for _, cc := range cancels {
-			if cc.Idx > send.Idx {
-				premature = true
+			if q.Rets[0] != send.Res[0] || q.Rets[1] != send.Res[1] {
+				bad("the attempt must return the transport's response and error unchanged")
+				continue
+			}
+			// K2: the merged context is cancelled although a response is returned whose body still reads under it
+			for _, cc := range cancels {
+				if cc.Idx > send.Idx {
+					premature = true
+				}
 			}
 		}
+	}
+	if evaluated == 0 {
+		return
 	}
 	if aspects["attempt"] && okAttempt && !(sawBody && sawNoBody) {
 		okAttempt = false
-		c.Fail(name, pos, "closure lacks the body or the no-body case", "")
+		c.Fail(name, pos, "the per-attempt function lacks the body or the no-body case", "")
 	}
 	if aspects["attempt"] && okAttempt {
-		c.Ok(name, pos, fmt.Sprintf("%d paths: MergeContexts(request ctx, exec ctx); request.WithContext(merged); fresh body per attempt; transport called once; its values returned; original request untouched", len(qs)))
+		c.Ok(name, pos, fmt.Sprintf("%d paths from %d entry points: MergeContexts(request ctx, exec ctx); request.WithContext(merged); fresh body per attempt; transport called once; its values returned; original request untouched", nPaths, evaluated))
 	}
 	if aspects["cancel-runs"] && okCancelRuns {
 		c.Ok(name+"#cancel-runs", pos, "the merged context's cancel function runs on every path")
@@ -387,6 +429,7 @@ func c18HTTPAttempt(c *Ctx, aspects map[string]bool) {
 			c.Ok("failsafehttp.doRequest$1#premature-cancel", pos, "the returned response's context is not cancelled on return")
 		}
 	}
+	_ = outerName
 }
 
 // ---- bodyReader --------------------------------------------------------------------------------------------
@@ -1299,40 +1342,11 @@ func c19Responses(c *Ctx) {
 // transport / client to doRequest and return its values; a nil inner round tripper means http.DefaultTransport.
 func c18EntryPoints(c *Ctx) {
 	c.Rule("http-entry")
-	for _, sp := range []struct{ fn, reqField, via string }{{"failsafehttp.(*roundTripper).RoundTrip", "", "RoundTrip"}, {"failsafehttp.(*Request).Do", "request", "Do"}} {
-		fn := c.P.Func(sp.fn)
-		if fn == nil {
-			c.Unresolved(sp.fn, "not found")
-			continue
-		}
-		ev := NewEvaluator(c.P, EvalConfig{})
-		ok := true
-		ps := ev.Run(fn)
-		recv := ev.Param(fn, fn.Params[0].Name())
-		for _, p := range ps {
-			d := eventsWhere(p, func(e *Event) bool { return isCall(e, "doRequest") })
-			good := p.Exit == ExitReturn && len(d) == 1 && len(impure(p)) == 1 && p.Rets[0] == d[0].Res[0] && p.Rets[1] == d[0].Res[1] && d[0].Args[1] == ev.LoadField(ev.NewState(), recv, "executor")
-			if good {
-				if sp.reqField == "" {
-					good = d[0].Args[0] == ev.Param(fn, fn.Params[1].Name())
-				} else {
-					good = d[0].Args[0] == ev.LoadField(ev.NewState(), recv, sp.reqField)
-				}
-			}
-			if good {
-				// the request function is the inner transport's RoundTrip / the client's Do, bound to the configured object
-				f := d[0].Args[2]
-				good = f.Op == "closure" && f.Fn != nil && (f.Fn.Name() == sp.via+"$bound") && len(f.Args) == 1 && (loadedField(f.Args[0]) == "next" || loadedField(f.Args[0]) == "client")
-			}
-			if !good {
-				ok = false
-				c.Fail(sp.fn, c.P.FuncPos(fn), "the entry point must be exactly doRequest(the caller's request, the configured executor, the inner "+sp.via+") and return its values", pathTrace(ev, p))
-			}
-		}
-		if ok && len(ps) > 0 {
-			c.Ok(sp.fn, c.P.FuncPos(fn), "delegates to doRequest with the caller's request, the executor and the inner "+sp.via)
-		}
-	}
+	// what the two entry points hand to the attempts (the caller's request, the configured executor, the inner
+	// transport's RoundTrip / the client's Do on the configured object) is checked where the attempts are evaluated:
+	// C18.http-attempt evaluates RoundTrip and Request.Do themselves
+	c18HTTPAttempt(c, map[string]bool{"attempt": true})
+	c.Rule("http-entry")
 	if fn := c.P.Func("failsafehttp.NewRoundTripperWithExecutor"); fn == nil {
 		c.Unresolved("failsafehttp.NewRoundTripperWithExecutor", "not found")
 	} else {
